@@ -18,7 +18,8 @@ ACCOUNT_ALIASES = {
     "Equity:Opening": ["opening"], "Liabilities:Card": ["card", "Visa Card", "Card, Visa"], "資産:現金": ["げんきん", "genkin"],
 }
 COMMODITIES = ["USD", "EUR", "AAA", "JPY"]
-COMMODITY_ALIASES = {"USD": ["US$", "Dollar"], "EUR": ["€", "Euro"], "AAA": ["Triple", "AAA_"], "JPY": ["円", "Yen"]}
+# (quotes are characters of a commodity name like any other)
+COMMODITY_ALIASES = {"USD": ["US$", "Dollar", "\"US\""], "EUR": ["€", "Euro"], "AAA": ["Triple", "AAA_"], "JPY": ["円", "Yen"]}
 
 
 def fmt_dec(d):
